@@ -235,7 +235,7 @@ def residual_routine_contract():
 
     from contracts import gauss_newton  # the solver contract assumed above has its home proofs there (C19)
 
-    return Contract(name=f"{MOD}:jetexpand_residual", module=MOD, qualname="jetexpand_residual", wrap=wrap, ensures=ensures, instances=instances, callees=gauss_newton.contracts(),
+    return Contract(name=f"{MOD}:jetexpand_residual", module=MOD, qualname="jetexpand_residual", wrap=wrap, ensures=ensures, instances=instances, premises=gauss_newton.contracts(),
                     doc="given coefficients are returned unchanged and are not degrees of freedom; every added coefficient is one; the objective handed to the least-squares solver is the residual of the leading coefficients at the requested time; start point and prior mean are (inits, 0)")
 
 
